@@ -122,6 +122,32 @@ fourth batch (the lines the repairs of 2026-09-29 introduced; uc_neighbor_offset
                                           when a SKIPPED statement assigns `obj.attr`, everything known about `obj` (its
                                           attributes, `len(obj)`) becomes opaque
 
+fifth batch (replace_pattern_in_structure: sample size, index map, deletion sets, pre-translations, wrap; the search helpers)
+  `round(x)` (one argument, a float)      `Py.round x`: an Int, the nearest integer, a tie goes to the EVEN neighbour (python rounds the
+                                          double; the model rounds the exact rational — they agree whenever the float product is exact)
+  `d.values()`, `a.isdisjoint(b)`         `Py.dictValues d` (insertion order), `Py.setDisjoint a b`
+  `x op= e` on a local name               `x = x op e` (sets / lists are values in the model; aliasing of a mutated object is not modelled)
+  `[e for a in xs for x in a]`            `List.flatten (List.map (fun a => [e for x in a]) xs)`
+  `call_mutates={"obj.m": [names]}`       in a fragment slice, a skipped expression statement `obj.m(…)` makes only the listed locals opaque
+                                          (DECLARED per entry, trusted: `Atoms.extend` builds its own normalised dict and does not mutate
+                                          the `structure_index_map` it is given — that line is translated in the fourth batch)
+  `self.attr op= e` in a mutating method  `self.attr = self.attr op e`; a mutating method WITHOUT a return value (`ret=None`) is the tuple of the
+                                          final values of the attributes it assigns; unary minus on a static array is element-wise
+  `ROWS(n)` attributes (`objattrs`)       an (n, 3) array given by n Vec3 parameters `obj_attr_0 …` (row i stands for itself; with n = 2 for
+                                          `search_pattern.positions`: row 0 is the first atom, row 1 is ANY other atom)
+  `obj.m(args)` as a statement            (`method_stmts={"m": lean}`) for a translated mutating method m of one row: every row of the attribute
+                                          m assigns becomes `lean row … args` (`let obj_attr_i' := …`); DECLARED: obj is an Atoms
+  `obj = obj.copy()` on an object parameter keeps what is declared about obj; any other re-binding of obj makes its attributes opaque
+  `for … : … break` updating one variable `Py.forBreak` / `Py.forBreakM?`: the body yields (state, did it break); loops may be nested inside a fold
+                                          body when they update the same variable
+  `norm(v) < d` (numpy.linalg.norm, 3-vector) `Py.normLt v d` = `0 < d ∧ ‖v‖² < d²` (exact: no square root); any other use of a norm is Unsupported
+  `[e for pat in xs if c]`                `List.filterMap (fun pat => if c then some e else none) xs` (pat a name or a tuple of names; c, e cannot raise)
+  `x % 1.0` on a float (also element-wise) `Py.fmod1 x` = `x - floor x` (exact on the rational; the divisor must be the literal 1.0 / 1)
+  fragments also: `("stmt", "text then e")` with an EXPRESSION e (not only a name);
+                  `("ifstmt", "text then e")` the value of expression e right after the unique `if` STATEMENT whose test contains text
+                                          (both outcomes of the `if` are part of the translation; a `raise` is `none`)
+  fragments also: `("callkw", (f, k))`    after `("assign", x)`: the keyword argument `k` of the unique call of `f` inside the assigned value
+
 sequencing slices (`trace=True`, used for mofun_cli)
   The body must consist of simple statements (expression statements, assignments, assert, del) and `if`s over them; no
   loops, no return.  The translation is `List String`: the simple statements that are executed, in program order, as
@@ -178,6 +204,11 @@ def OPT(t):
 
 def TUP(*ts):
     return ("tuple", tuple(ts))
+
+
+def ROWS(n):
+    """a numpy array of shape (n, 3) given by its rows: n parameters of type Vec3 (`name_0` … `name_<n-1>`)"""
+    return ("rows", n)
 
 
 def DICT(k, v):
@@ -621,6 +652,15 @@ class Fn:
             v = self.ex(node.operand, env)
             if v.ty == OPAQUE:
                 return v
+            if v.np and v.items is not None:               # element-wise on a static array
+                def neg(x):
+                    if x.items is not None:
+                        return self.mkstatic([neg(y) for y in x.items])
+                    x = self.coerce(node, x, NUM if x.ty in (NUM, DECLIT) else INT)
+                    return V("(-%s)" % x.term, x.ty, x.binds, x.refs)
+                r = neg(v)
+                r.binds = v.binds + r.binds
+                return r
             if v.ty == NAT:
                 v = self.coerce(node, v, INT)
             if v.ty in (NUM, INT):
@@ -719,6 +759,12 @@ class Fn:
                 fn = "Option.isNone" if isinstance(op, ast.Is) else "Option.isSome"
                 return V("(%s %s)" % (fn, a.term), BOOL, a.binds, a.refs)
             self.fail(node, "`is` is supported only between an optional parameter and None")
+        if a.ty == "norm" or b.ty == "norm":
+            if a.ty == "norm" and isinstance(op, ast.Lt) and b.ty in (NUM, DECLIT, INTLIT, NAT, INT):
+                b = self.coerce(node, b, NUM)
+                binds, refs = _join(a, b)
+                return V("(Py.normLt %s %s)" % (a.term, b.term), BOOL, binds, refs)
+            self.fail(node, "a norm may only be compared as `norm(v) < d`")
         ty = self.unify(node, [a.ty, b.ty])
         a, b = self.coerce(node, a, ty), self.coerce(node, b, ty)
         binds, refs = _join(a, b)
@@ -784,6 +830,9 @@ class Fn:
         if ty not in (NAT, INT, NUM):
             self.fail(node, "arithmetic on %s" % (ty,))
         if isinstance(node.op, ast.Mod):
+            if ty == NUM and ((b.ty == DECLIT and b.lit[0] == 10 ** b.lit[1]) or (b.ty == INTLIT and b.lit == 1)):
+                a = self.coerce(node, a, NUM)              # `x % 1.0` on a float: the fractional part, in [0, 1)
+                return V("(Py.fmod1 %s)" % a.term, NUM, a.binds, a.refs)
             if ty == NUM:
                 self.fail(node, "% on floats")
             a, b = self.coerce(node, a, INT), self.coerce(node, b, INT)
@@ -877,7 +926,7 @@ class Fn:
             if i >= len(base.items):
                 self.fail(node, "index %d outside a list of %d elements" % (i, len(base.items)))
             x = base.items[i]
-            return V(x.term, x.ty, base.binds, x.refs, x.items, x.lit)
+            return V(x.term, x.ty, base.binds, x.refs, x.items, x.lit, np=x.np)
         if base.ty == STR:
             r = self.rebind("(Py.strIndex? %s %d)" % (base.term, i), STR, base.refs)
             return V(r.term, STR, base.binds + r.binds, r.refs)
@@ -898,6 +947,56 @@ class Fn:
         self.fail(node, "only constant non-negative indices are supported")
 
     def ex_ListComp(self, node, env, want):
+        if len(node.generators) == 2 and not any(g.ifs or g.is_async or not isinstance(g.target, ast.Name) for g in node.generators):
+            # `[e for a in xs for x in ys(a)]`: the inner lists one after the other, in the order of xs
+            g = node.generators[0]
+            src = self.ex(g.iter, env)
+            if src.ty == OPAQUE:
+                return V.opaque()
+            if not (isinstance(src.ty, tuple) and src.ty[0] == "list") or src.items is not None:
+                self.fail(node, "nested comprehension over %s" % (src.ty,))
+            e2 = dict(env)
+            nm = self.lname(g.target.id)
+            e2[g.target.id] = V(nm, src.ty[1], (), {nm})
+            inner = self.ex_ListComp(ast.copy_location(ast.ListComp(elt=node.elt, generators=node.generators[1:]), node), e2, want)
+            if inner.ty == OPAQUE:
+                return V.opaque()
+            if inner.binds or inner.items is not None:
+                self.fail(node, "nested comprehension whose inner part may raise or is a static list")
+            return V("(List.flatten (List.map (fun %s => %s) %s))" % (nm, inner.term, src.term), inner.ty, src.binds, (inner.refs - {nm}) | src.refs)
+        g0 = node.generators[0]
+        if len(node.generators) == 1 and not g0.is_async and (g0.ifs or isinstance(g0.target, ast.Tuple)) and \
+                (isinstance(g0.target, ast.Name) or all(isinstance(e, ast.Name) for e in g0.target.elts)):
+            # `[e for pat in xs if c]` (pat a name or a tuple of names): `List.filterMap (fun pat => if c then some e else none) xs`
+            src = self.ex(g0.iter, env)
+            if src.ty == OPAQUE:
+                return V.opaque()
+            if not (isinstance(src.ty, tuple) and src.ty[0] == "list") or src.items is not None:
+                self.fail(node, "filtered comprehension over %s" % (src.ty,))
+            e2 = dict(env)
+            if isinstance(g0.target, ast.Name):
+                names = [self.lname(g0.target.id)]
+                e2[g0.target.id] = V(names[0], src.ty[1], (), {names[0]})
+                pat = names[0]
+            else:
+                ety = src.ty[1]
+                if not (isinstance(ety, tuple) and ety[0] == "tuple" and len(ety[1]) == len(g0.target.elts)):
+                    self.fail(node, "comprehension target for elements of type %s" % (ety,))
+                names = [self.lname(e.id) for e in g0.target.elts]
+                for e, nm, ty in zip(g0.target.elts, names, ety[1]):
+                    e2[e.id] = V(nm, ty, (), {nm})
+                pat = "(%s)" % ", ".join(names)
+            conds = [self.cond(c, e2) for c in g0.ifs]
+            body = self.ex(node.elt, e2)
+            if body.ty == OPAQUE or any(c.ty == OPAQUE for c in conds):
+                return V.opaque()
+            if body.binds or any(c.binds for c in conds):
+                self.fail(node, "filtered comprehension whose test or element may raise")
+            if body.ty in (INTLIT, DECLIT):
+                body = self.coerce(node, body, NAT if body.ty == INTLIT else NUM)
+            refs = (set(body.refs) | {r for c in conds for r in c.refs}) - set(names) | src.refs
+            test = " && ".join(c.term for c in conds) if conds else "true"
+            return V("(List.filterMap (fun %s => if (%s) then some %s else none) %s)" % (pat, test, body.term, src.term), LIST(body.ty), src.binds, refs)
         if len(node.generators) != 1 or node.generators[0].ifs or node.generators[0].is_async or \
                 not isinstance(node.generators[0].target, ast.Name):
             self.fail(node, "comprehension shape")
@@ -1158,6 +1257,21 @@ class Fn:
                 if a.ty == NUM:
                     return V("(Py.abs %s)" % a.term, NUM, a.binds, a.refs)
                 self.fail(node, "abs of %s" % (a.ty,))
+            if f.id == "norm" and len(args) == 1 and not node.keywords:
+                # numpy.linalg.norm of a 3-vector: only as the left operand of `<` (the square root is not a rational)
+                own = [n for n in self.tree.body if isinstance(n, ast.ImportFrom) and n.module == "numpy.linalg" and
+                       any(al.name == "norm" and al.asname is None for al in n.names)]
+                if not own or "norm" in self.locals_assigned:
+                    self.fail(node, "norm is not numpy.linalg.norm")
+                a = self.coerce(node, args[0], VEC3)
+                return V(a.term, "norm", a.binds, a.refs)
+            if f.id == "round" and len(args) == 1:
+                # python `round(x)` of a float with ONE argument: an int, the nearest one, a tie to the even neighbour
+                a = args[0]
+                if a.ty in (DECLIT, NUM):
+                    a = self.coerce(node, a, NUM)
+                    return V("(Py.round %s)" % a.term, INT, a.binds, a.refs)
+                self.fail(node, "round of %s" % (a.ty,))
             if f.id == "enumerate" and len(args) == 1 and isinstance(args[0].ty, tuple) and args[0].ty[0] == "list":
                 a = args[0]
                 return V("(Py.enumerate %s)" % a.term, LIST(TUP(NAT, a.ty[1])), a.binds, a.refs)
@@ -1207,6 +1321,12 @@ class Fn:
                 return V.opaque()
             if obj.ty == ("table", "decdict") and f.attr == "items" and not args:
                 return V("(Py.tableItems %s)" % obj.term, LIST(TUP(STR, NUM)))
+            if isinstance(obj.ty, tuple) and obj.ty[0] == "dict" and f.attr == "values" and not args:
+                return V("(Py.dictValues %s)" % obj.term, LIST(obj.ty[2]), obj.binds, obj.refs)
+            if isinstance(obj.ty, tuple) and obj.ty[0] == "set" and f.attr == "isdisjoint" and len(args) == 1 and \
+                    isinstance(args[0].ty, tuple) and args[0].ty[0] in ("set", "list") and args[0].ty[1] == obj.ty[1]:
+                binds, refs = _join(obj, args[0])
+                return V("(Py.setDisjoint %s %s)" % (obj.term, args[0].term), BOOL, binds, refs)
             if obj.ty == STR and f.attr == "strip" and not args:
                 return V("(Py.strStripWs %s)" % obj.term, STR, obj.binds, obj.refs)
             if obj.ty == STR and f.attr == "strip" and len(args) == 1 and args[0].ty == STR:
@@ -1351,9 +1471,14 @@ class Fn:
                 return self.block(conts[0], env, conts[1:], mode)
             if mode == "loop":
                 return ("end",)
-            if mode == "fold":
+            if mode in ("fold", "foldB"):
                 st = self.fold_state[-1]
                 return ("ret", env[st])
+            if self.cfg.get("mutates") and self.ret is None:
+                outs = [env["self." + a] for a in self.mutated_attrs()]     # a procedure: the final values of the attributes it assigns
+                outs = [self.coerce(None, o, self.cfg["attrs"][a]) for o, a in zip(outs, self.mutated_attrs())]
+                binds, refs = _join(*outs)
+                return self.with_binds(binds, ("ret", V("(%s)" % ", ".join(o.term for o in outs), None, (), refs)))
             if isinstance(self.ret, tuple) and self.ret[0] == "opt" and not self.cfg.get("tagged"):
                 return ("ret", V("none", self.ret))
             raise Unsupported("%s: %s can fall off its end (returns None)" % (self.path, self.cfg["py"]))
@@ -1369,8 +1494,10 @@ class Fn:
             self.ntmp = saved
             if not ok:
                 e2 = dict(env)
+                cm = self.cfg.get("call_mutates", {})
+                only = cm.get(ast.unparse(s.value.func)) if isinstance(s, ast.Expr) and isinstance(s.value, ast.Call) else None
                 for n in ast.walk(s):
-                    if isinstance(n, ast.Name) and n.id in e2 and n.id in self.locals_assigned:
+                    if isinstance(n, ast.Name) and n.id in e2 and n.id in self.locals_assigned and (only is None or n.id in only):
                         e2[n.id] = V.opaque()
                     if isinstance(n, ast.Attribute) and isinstance(n.ctx, (ast.Store, ast.Del)) and isinstance(n.value, ast.Name):
                         # an attribute of an object is assigned: what the translation knows about that object
@@ -1478,6 +1605,42 @@ class Fn:
                     e2[tgt.value.id] = V(nm, d.ty, (), {nm})
                     binds = k.binds + v.binds + [(nm, "(Py.dictAppend? %s %s %s)" % (d.term, k.term, v.term), d.refs | k.refs | v.refs)]
                     return self.with_binds(binds, self.block(rest, e2, conts, mode))
+            # obj.m(args) for a translated MUTATING method m (`method_stmts`): every row of the attribute it assigns is replaced by
+            # the generated definition applied to that row
+            ms = self.cfg.get("method_stmts", {})
+            if isinstance(c, ast.Call) and isinstance(c.func, ast.Attribute) and isinstance(c.func.value, ast.Name) and \
+                    c.func.attr in ms and c.func.value.id in self.cfg.get("objattrs", {}) and not c.keywords:
+                obj = c.func.value.id
+                other = [f for f in FUNCTIONS if f["lean"] == ms[c.func.attr]][0]
+                if not other.get("mutates") or other.get("partial") or other["ret"] is not None:
+                    self.fail(s, "%s is not a total mutating method without a result" % c.func.attr)
+                attrs = list(other["attrs"])
+                target = [a for a in attrs if a != "__len__"]
+                if len(target) != 1 or any(obj + "." + a not in env for a in attrs):
+                    self.fail(s, "%s.%s: the attributes %r are not declared for %s" % (obj, c.func.attr, attrs, obj))
+                target = target[0]
+                cur = env[obj + "." + target]
+                args = [self.coerce(s, self.ex(a, env), t) for a, (_, t) in zip(c.args, other["params"])]
+                if len(c.args) != len(other["params"]) or cur.ty == OPAQUE or cur.items is None or \
+                        any(obj + "." + a in env and env[obj + "." + a].ty == OPAQUE for a in attrs):
+                    self.fail(s, "call %s" % ast.unparse(c))
+                binds, refs = _join(*args)
+                base = "%s_%s" % (obj, target)
+                gen = sum(1 for k in env if k.startswith("#" + base))
+                e2 = dict(env)
+                e2["#%s%d" % (base, gen)] = True
+                lets, rows = [], []
+                for i, row in enumerate(cur.items):
+                    nm = "%s_%d%s" % (base, i, "'" * (gen + 1))
+                    call = "(%s %s)" % (other["lean"], " ".join([(row.term if a == target else env[obj + "." + a].term) for a in attrs] +
+                                                                 [a.term for a in args]))
+                    lets.append((nm, V(call, VEC3, (), set(row.refs) | refs | {r for a in attrs if a != target for r in env[obj + "." + a].refs})))
+                    rows.append(static_param(nm, VEC3))
+                e2[obj + "." + target] = self.mkstatic(rows)
+                ir = self.block(rest, e2, conts, mode)
+                for nm, val in reversed(lets):
+                    ir = ("let", nm, val, ir)
+                return self.with_binds(binds, ir)
             self.fail(s, "expression statement %s" % ast.unparse(s)[:60])
         if isinstance(s, ast.FunctionDef):
             if s.name in self.cfg.get("calls", {}):
@@ -1550,6 +1713,17 @@ class Fn:
             e2 = dict(env)
             e2["self." + attr] = V(nm, ty, (), {nm})
             return self.with_binds(v.binds, ("let", nm, V(v.term, ty, (), v.refs), self.block(rest, e2, conts, mode)))
+        if isinstance(s, ast.AugAssign) and isinstance(s.target, ast.Attribute) and isinstance(s.target.value, ast.Name) and \
+                s.target.value.id == "self" and self.cfg.get("mutates") and s.target.attr in self.cfg.get("attrs", {}):
+            # `self.attr op= e`: `self.attr = self.attr op e`
+            load = ast.copy_location(ast.Attribute(value=s.target.value, attr=s.target.attr, ctx=ast.Load()), s)
+            return self.stmt(ast.copy_location(ast.Assign(targets=[s.target], value=ast.copy_location(
+                ast.BinOp(left=load, op=s.op, right=s.value), s)), s), rest, env, conts, mode)
+        if isinstance(s, ast.AugAssign) and isinstance(s.target, ast.Name) and s.target.id in env and mode not in ("loop", "fold"):
+            # `x op= e` on a local: `x = x op e` (values are immutable in the model: no aliasing of a mutated set / list)
+            load = ast.copy_location(ast.Name(id=s.target.id, ctx=ast.Load()), s)
+            return self.stmt(ast.copy_location(ast.Assign(targets=[s.target], value=ast.copy_location(
+                ast.BinOp(left=load, op=s.op, right=s.value), s)), s), rest, env, conts, mode)
         if isinstance(s, ast.Assign):
             if len(s.targets) != 1 or not isinstance(s.targets[0], ast.Name):
                 self.fail(s, "assignment target")
@@ -1564,6 +1738,10 @@ class Fn:
                 if v.ty == NONE and not self.slice:
                     self.fail(s, "assignment of None")
                 e2[x] = V.opaque()
+                if x in self.cfg.get("objattrs", {}) and ast.unparse(s.value) != "%s.copy()" % x:
+                    for key in list(e2):                     # an object parameter is re-bound to something else
+                        if key.startswith(x + "."):
+                            e2[key] = V.opaque()
                 return self.block(rest, e2, conts, mode)
             nm = self.lname(x)
             if v.ty in (INTLIT, DECLIT) or (v.items is not None and v.term == "?"):
@@ -1609,6 +1787,8 @@ class Fn:
                     self.fail(s, "a dispatch slice must return the result of a call")
                 return ("ret", V(_lean_str(ast.unparse(val.func)), STR))
             return self.ret_ir(s, env, mode)
+        if isinstance(s, ast.Break) and mode == "foldB":
+            return ("break", env[self.fold_state[-1]])          # the rest of the body and all later iterations are skipped
         if isinstance(s, ast.Raise):
             if not self.partial:
                 self.fail(s, "raise in a function declared total")
@@ -1663,8 +1843,8 @@ class Fn:
         """the attributes of self the method assigns, in the order in which the translator declares them (`attrs`);
         unexpected ones last (they make the translation Unsupported)"""
         out = []
-        for n in sorted((n for n in ast.walk(self.node) if isinstance(n, ast.Assign)), key=lambda n: (n.lineno, n.col_offset)):
-            for t in n.targets:
+        for n in sorted((n for n in ast.walk(self.node) if isinstance(n, (ast.Assign, ast.AugAssign))), key=lambda n: (n.lineno, n.col_offset)):
+            for t in (n.targets if isinstance(n, ast.Assign) else [n.target]):
                 if isinstance(t, ast.Attribute) and isinstance(t.value, ast.Name) and t.value.id == "self" and t.attr not in out:
                     out.append(t.attr)
         order = list(self.cfg.get("attrs", {}))
@@ -1708,7 +1888,7 @@ class Fn:
 
     def for_ir(self, s, rest, env, conts, mode):
         has_return = any(isinstance(n, ast.Return) for n in ast.walk(ast.Module(body=s.body, type_ignores=[])))
-        if s.orelse or mode in ("loop", "fold") or (self.partial and has_return):
+        if s.orelse or mode == "loop" or (mode in ("fold", "foldB") and has_return) or (self.partial and has_return):
             self.fail(s, "for loop in this position")
         it = self.ex(s.iter, env)
         if not (isinstance(it.ty, tuple) and it.ty[0] == "list") or it.binds:
@@ -1723,7 +1903,7 @@ class Fn:
                 isinstance(ety, tuple) and ety[0] == "tuple" and len(ety[1]) == len(s.target.elts):
             names = [self.lname(e.id) for e in s.target.elts]
             for e, nm, ty in zip(s.target.elts, names, ety[1]):
-                e2[e.id] = V(nm, ty, (), {nm})
+                e2[e.id] = static_param(nm, ty) if ty == VEC3 else V(nm, ty, (), {nm})
             pat = "(%s)" % ", ".join(names)
         else:
             self.fail(s, "for target")
@@ -1738,8 +1918,18 @@ class Fn:
     def fold_ir(self, s, rest, env, conts, mode, it, e2, pat, patnames):
         """a loop that updates ONE variable defined before it: `x = Py.forFold xs x (fun x pat => body)`"""
         changed = []
+
+        def own_breaks(stmts):            # `break` statements that end THIS loop (not one nested in it)
+            out = []
+            for n in stmts:
+                if isinstance(n, ast.Break):
+                    out.append(n)
+                elif isinstance(n, ast.If):
+                    out += own_breaks(n.body) + own_breaks(n.orelse)
+            return out
+        has_break = bool(own_breaks(s.body))
         for n in ast.walk(ast.Module(body=s.body, type_ignores=[])):
-            if isinstance(n, (ast.AugAssign, ast.Break, ast.Continue, ast.For, ast.While, ast.Raise)):
+            if isinstance(n, (ast.AugAssign, ast.Continue, ast.While, ast.Raise)):
                 self.fail(n, "statement %s in a loop body" % type(n).__name__)
             tgt = None
             if isinstance(n, ast.Assign) and len(n.targets) == 1:
@@ -1761,16 +1951,16 @@ class Fn:
         nm = self.lname(x)
         e2[x] = V(nm, init.ty, (), {nm})
         self.fold_state.append(x)
-        body = self.block(s.body, e2, [], "fold")
+        body = self.block(s.body, e2, [], "foldB" if has_break else "fold")
         self.fold_state.pop()
         e3 = dict(env)
         e3[x] = V(nm, init.ty, (), {nm})
-        return ("fold", nm, it, pat, patnames, init, body, self.block(rest, e3, conts, mode))
+        return ("foldB" if has_break else "fold", nm, it, pat, patnames, init, body, self.block(rest, e3, conts, mode))
 
     # -------------------------------------------------------------- IR -> Lean text
     def fv(self, ir):
         k = ir[0]
-        if k == "ret":
+        if k in ("ret", "break"):
             return set(ir[1].refs)
         if k in ("raise", "end"):
             return set()
@@ -1784,7 +1974,7 @@ class Fn:
             return ir[1].refs | (self.fv(ir[3]) - {ir[2]}) | self.fv(ir[4])
         if k == "for":
             return ir[1].refs | (self.fv(ir[4]) - ir[3]) | self.fv(ir[5])
-        if k == "fold":
+        if k in ("fold", "foldB"):
             return ir[2].refs | ir[5].refs | (self.fv(ir[6]) - ir[4] - {ir[1]}) | (self.fv(ir[7]) - {ir[1]})
         raise AssertionError(k)
 
@@ -1794,7 +1984,7 @@ class Fn:
         if k in ("bind", "raise"):
             return True
         return any(self.raises(x) for x in ir[1:] if isinstance(x, tuple) and x and isinstance(x[0], str) and
-                   x[0] in ("ret", "raise", "end", "let", "bind", "if", "matchopt", "for", "fold"))
+                   x[0] in ("ret", "raise", "end", "let", "bind", "if", "matchopt", "for", "fold", "foldB", "break"))
 
     def dce(self, ir):
         """drop `let`s nobody uses; in a slice also bindings nobody uses"""
@@ -1813,8 +2003,8 @@ class Fn:
             return ("matchopt", ir[1], ir[2], self.dce(ir[3]), self.dce(ir[4]))
         if k == "for":
             return ("for", ir[1], ir[2], ir[3], self.dce(ir[4]), self.dce(ir[5]))
-        if k == "fold":
-            return ("fold", ir[1], ir[2], ir[3], ir[4], ir[5], self.dce(ir[6]), self.dce(ir[7]))
+        if k in ("fold", "foldB"):
+            return (k, ir[1], ir[2], ir[3], ir[4], ir[5], self.dce(ir[6]), self.dce(ir[7]))
         return ir
 
     def emit(self, ir, ind, mode):
@@ -1822,7 +2012,11 @@ class Fn:
         k = ir[0]
         if k == "ret":
             t = ir[1].term
-            return [pad + {"total": t, "partial": "pure %s" % t, "loop": "some %s" % t, "foldM": "pure %s" % t}[mode]]
+            return [pad + {"total": t, "partial": "pure %s" % t, "loop": "some %s" % t, "foldM": "pure %s" % t,
+                           "foldB": "(%s, false)" % t, "foldBM": "pure (%s, false)" % t}[mode]]
+        if k == "break":
+            t = ir[1].term
+            return [pad + {"foldB": "(%s, true)" % t, "foldBM": "pure (%s, true)" % t}[mode]]
         if k == "raise":
             return [pad + "none  -- %s" % ir[1]]
         if k == "end":
@@ -1841,9 +2035,17 @@ class Fn:
         if k == "matchopt":
             return [pad + "match %s with" % ir[1].term, pad + "| some %s =>" % ir[2]] + self.emit(ir[3], ind + 1, mode) + \
                    [pad + "| none =>"] + self.emit(ir[4], ind + 1, mode)
+        if k == "foldB":
+            # a loop that may `break`: the body yields (state, did it break)
+            m = self.raises(ir[6])
+            if m and mode not in ("partial", "foldM", "foldBM"):
+                raise Unsupported("%s: the loop body of %s may raise but the function is declared total" % (self.path, self.cfg["py"]))
+            head = "let %s ← Py.forBreakM? %s %s (fun %s %s => do" if m else "let %s : " + lean_ty(ir[5].ty) + " := Py.forBreak %s %s (fun %s %s =>"
+            return [pad + head % (ir[1], ir[2].term, ir[5].term, ir[1], ir[3])] + self.emit(ir[6], ind + 2, "foldBM" if m else "foldB") + \
+                   [pad + "    )"] + self.emit(ir[7], ind, mode)
         if k == "fold":
             m = self.raises(ir[6])
-            if m and mode not in ("partial", "foldM"):
+            if m and mode not in ("partial", "foldM", "foldBM"):
                 raise Unsupported("%s: the loop body of %s may raise but the function is declared total" % (self.path, self.cfg["py"]))
             head = "let %s ← Py.forFoldM? %s %s (fun %s %s => do" if m else "let %s : " + lean_ty(ir[5].ty) + " := Py.forFold %s %s (fun %s %s =>"
             return [pad + head % (ir[1], ir[2].term, ir[5].term, ir[1], ir[3])] + self.emit(ir[6], ind + 2, "foldM" if m else "total") + \
@@ -1987,6 +2189,14 @@ class Fn:
                         if len(calls) != 1 or not calls[0].args:
                             raise Unsupported("%s: %s: %d calls of %r in %s" % (self.path, self.cfg["py"], len(calls), arg, ast.unparse(val)))
                         val = calls[0].args[0]
+                    elif sel == "callkw":        # the keyword argument `kw` of the unique call of a function whose name ends with `fn`
+                        fn_, kwname = arg
+                        calls = [n for n in ast.walk(val) if isinstance(n, ast.Call) and ast.unparse(n.func).endswith(fn_)]
+                        vals = [k.value for c in calls for k in c.keywords if k.arg == kwname]
+                        if len(calls) != 1 or len(vals) != 1:
+                            raise Unsupported("%s: %s: %d calls of %r with %d keywords %r in %s" %
+                                              (self.path, self.cfg["py"], len(calls), fn_, len(vals), kwname, ast.unparse(val)))
+                        val = vals[0]
                     elif sel == "eltcallee":     # the name of the function a comprehension applies to its variable, as a string
                         if not (isinstance(val, ast.ListComp) and isinstance(val.elt, ast.Call) and len(val.elt.args) == 1 and
                                 isinstance(val.elt.args[0], ast.Name) and val.elt.args[0].id == ast.unparse(val.generators[0].target)
@@ -2003,7 +2213,14 @@ class Fn:
                 if len(hits) != 1:
                     raise Unsupported("%s: %s: %d statements contain %r" % (self.path, self.cfg["py"], len(hits), text))
                 i, x = hits[0]
-                return out + stmts[:i + 1] + [ast.copy_location(ast.Return(value=ast.Name(id=var, ctx=ast.Load())), x)]
+                return out + stmts[:i + 1] + [ast.copy_location(ast.Return(value=ast.parse(var, mode="eval").body), x)]
+            elif kind == "ifstmt":               # the value of expression `e` right after the unique `if` STATEMENT whose test contains `text`
+                text, _, var = text.partition(" then ")
+                hits = [(i, x) for i, x in enumerate(stmts) if isinstance(x, ast.If) and text in ast.unparse(x.test)]
+                if len(hits) != 1:
+                    raise Unsupported("%s: %s: %d `if` statements mention %r" % (self.path, self.cfg["py"], len(hits), text))
+                i, x = hits[0]
+                return out + stmts[:i + 1] + [ast.copy_location(ast.Return(value=ast.parse(var, mode="eval").body), x)]
             else:
                 raise AssertionError(kind)
         raise Unsupported("%s: %s: the fragment path selects no expression" % (self.path, self.cfg["py"]))
@@ -2029,6 +2246,11 @@ class Fn:
         for obj, attrs in cfg.get("objattrs", {}).items():   # attributes read from a parameter that is an object
             for attr, ty in attrs.items():
                 nm = "%s_len" % obj if attr == "__len__" else "%s_%s" % (obj, attr)
+                if isinstance(ty, tuple) and ty[0] == "rows":
+                    rows = ["%s_%d" % (nm, i) for i in range(ty[1])]
+                    env[obj + "." + attr] = self.mkstatic([static_param(r, VEC3) for r in rows])
+                    params += [(r, VEC3) for r in rows]
+                    continue
                 env[obj + "." + attr] = static_param(nm, ty)
                 params.append((nm, ty))
         for c, ty in cfg.get("closure", []):            # variables of the enclosing function a nested function reads
@@ -2099,7 +2321,7 @@ class Fn:
                 params = [(n, (ty if n == self.lname(name) else t)) for n, t in params]
             if cfg.get("inputs") is not None:
                 # the fragment is translated for GIVEN values of these locals: the statements before it are not read
-                body_stmts = body_stmts[-(cfg.get("keep_last", 0) + (2 if cfg["fragment"][-1][0] == "stmt" else 1)):]
+                body_stmts = body_stmts[-(cfg.get("keep_last", 0) + (2 if cfg["fragment"][-1][0] in ("stmt", "ifstmt") else 1)):]
                 for name, ty in cfg["inputs"].items():
                     env[name] = static_param(self.lname(name), ty)
                     params.append((self.lname(name), ty))
@@ -2115,7 +2337,8 @@ class Fn:
             for a in self.mutated_attrs():
                 if a not in cfg["attrs"]:
                     raise Unsupported("%s:%d: %s assigns self.%s, which the translator does not expect" % (self.path, fn.lineno, cfg["py"], a))
-            rty = lean_ty(TUP(self.ret, *[cfg["attrs"][a] for a in self.mutated_attrs()]))
+            outs = [cfg["attrs"][a] for a in self.mutated_attrs()]
+            rty = lean_ty(TUP(*(([] if self.ret is None else [self.ret]) + outs))) if len(outs) != 1 or self.ret is not None else lean_ty(outs[0])
         else:
             rty = lean_ty(self.ret)
         if self.partial:
@@ -2539,6 +2762,97 @@ namespace Mofun.Generated.Code
 open Mofun Mofun.Generated
 
 '''
+
+
+PRELUDE5 = r'''/-! fifth batch -/
+
+/-- python `round(x)` of a float (one argument): the nearest integer, a tie goes to the EVEN neighbour -/
+def round (x : Rat) : Int :=
+  let fl := Rat.floor x
+  let r := x - (fl : Rat)
+  if r < 1 / 2 then fl else if 1 / 2 < r then fl + 1 else if fl % 2 = 0 then fl else fl + 1
+
+/-- `d.values()` of an insertion-ordered dict, in insertion order -/
+def dictValues {κ β} (d : List (κ × β)) : List β := d.map (fun p => p.2)
+/-- `a.isdisjoint(b)` on sets -/
+def setDisjoint {α} [DecidableEq α] (a b : List α) : Bool := a.all (fun x => !b.contains x)
+
+/-- `x % 1.0` on a float: `x - floor(x)`, in `[0, 1)` (python / numpy `%` takes the sign of the divisor) -/
+def fmod1 (x : Rat) : Rat := x - (Rat.floor x : Rat)
+
+/-- `for x in xs: <body updating st, may break>`: the body yields the new state and whether it executed `break` -/
+def forBreak {α σ} : List α → σ → (σ → α → σ × Bool) → σ
+  | [], st, _ => st
+  | x :: xs, st, f => if (f st x).2 then (f st x).1 else forBreak xs (f st x).1 f
+/-- the same when the body may raise -/
+def forBreakM? {α σ} : List α → σ → (σ → α → Option (σ × Bool)) → Option σ
+  | [], st, _ => some st
+  | x :: xs, st, f =>
+    match f st x with
+    | none => none
+    | some (st', true) => some st'
+    | some (st', false) => forBreakM? xs st' f
+
+/-- `numpy.linalg.norm(v) < d` for a 3-vector: `d > 0` and `‖v‖² < d²` (no square root: exact on rationals) -/
+def normLt (v : Vec3) (d : Rat) : Bool := decide (0 < d) && decide (v.x * v.x + v.y * v.y + v.z * v.z < d * d)
+
+'''
+assert PRELUDE.count("end Mofun.Generated.Py\n") == 1
+PRELUDE = PRELUDE.replace("end Mofun.Generated.Py\n", PRELUDE5 + "end Mofun.Generated.Py\n")
+
+_REPL = dict(file="mofun/mofun.py", py="replace_pattern_in_structure", slice=True, decorators=["suppress_warnings"])
+_REPL_LOOP = [("if", "len(replace_pattern)"), "orelse", ("for", "enumerate(match_positions)")]     # the body of the loop over the matches
+
+FUNCTIONS += [
+    # ---- fifth batch: replace_pattern_in_structure and the search helpers
+    dict(_REPL, lean="replaceUsesSample",
+         fragment=[("if", "replace_fraction"), "test"], params=[("replace_fraction", NUM)], inputs={}, ret=BOOL,
+         doc=" (FRAGMENT: is only a sample of the matches replaced)"),
+    dict(_REPL, lean="replaceSampleSize",
+         fragment=[("if", "replace_fraction"), "body", ("assign", "replace_indices"), ("callkw", ("sample", "k"))],
+         params=[("replace_fraction", NUM)], inputs={}, abstractions={"len(match_positions)": ("num_matches", NAT)}, ret=INT,
+         doc=" (FRAGMENT: the number of matches `random.sample` is asked for, `round(replace_fraction * len(match_positions))`)"),
+    dict(_REPL, lean="replaceIndexMap", partial=True,
+         fragment=_REPL_LOOP + [("ifstmt", "replace_all then structure_index_map")], keep_last=1, params=[("replace_all", BOOL)],
+         inputs={"match_indices": LIST(LIST(NAT)), "m_i": NAT, "replace2search_pattern_map": DICT(NAT, NAT)},
+         locals={"structure_index_map": DICT(NAT, NAT)}, call_mutates={"new_structure.extend": ["new_structure"]}, ret=DICT(NAT, NAT),
+         doc=" (FRAGMENT: the structure_index_map of one match — `{}`, then for `not replace_all` the dict comprehension "
+             "`{k: match_indices[m_i][v] for k, v in replace2search_pattern_map.items()}`; `none` = IndexError)"),
+    dict(_REPL, lean="replaceDeleteLinker", partial=True, fragment=_REPL_LOOP + [("assign", "to_delete_linker")], params=[],
+         inputs={"match_indices": LIST(LIST(NAT)), "m_i": NAT, "structure_index_map": DICT(NAT, NAT)}, ret=SET(NAT),
+         doc=" (FRAGMENT: the atoms one match wants deleted, `set(match_indices[m_i]) - set(structure_index_map.values())`; `none` = IndexError)"),
+    dict(_REPL, lean="replaceMergeDelete", partial=True, fragment=_REPL_LOOP + [("ifstmt", "isdisjoint then to_delete")],
+         params=[("ignore_atoms_should_not_be_deleted_twice", BOOL)], inputs={"to_delete": SET(NAT), "to_delete_linker": SET(NAT)}, ret=SET(NAT),
+         doc=" (FRAGMENT: the deletion set after one match — the `if to_delete.isdisjoint(…) or ignore…:` statement with both outcomes; "
+             "`none` = `raise AtomsShouldNotBeDeletedTwice()`)"),
+    dict(file="mofun/atoms.py", cls="Atoms", py="translate", lean="atomsTranslate", params=[("delta", VEC3)], mutates=True,
+         attrs={"positions": VEC3, "__len__": NAT}, ret=None,
+         doc=" for ONE atom: the new value of its row of `self.positions` (`self.positions += delta`, guarded by `len(self) > 0`)"),
+    dict(_REPL, lean="replacePretranslate",
+         fragment=[("stmt", "search_pattern.translate then (replace_pattern.positions[0], search_pattern.positions[0], search_pattern.positions[1])")],
+         params=[], objattrs={"search_pattern": {"positions": ROWS(2), "__len__": NAT}, "replace_pattern": {"positions": ROWS(1), "__len__": NAT}},
+         method_stmts={"translate": "atomsTranslate"}, ret=TUP(VEC3, VEC3, VEC3),
+         doc=" (FRAGMENT on positions: the two pre-translations `replace_pattern.translate(-search_pattern.positions[0])`, "
+             "`search_pattern.translate(-search_pattern.positions[0])` IN THE ORDER OF THE SOURCE; result = (a replace-pattern atom, the first "
+             "search-pattern atom, any other search-pattern atom) afterwards)"),
+    dict(_REPL, lean="replaceWrap", fragment=_REPL_LOOP + [("assign", "new_atoms.positions containing .dot(")], params=[],
+         inputs={"cell": MAT3}, abstractions={"new_atoms.positions": ("pos", VEC3)}, ret=VEC3,
+         doc=" (FRAGMENT for ONE atom: the wrap into the unit cell, `(new_atoms.positions.dot(np.linalg.inv(cell)) % 1.0).dot(cell)`; "
+             "the inverse is expanded as adjugate / determinant)"),
+    dict(file="mofun/atoms.py", py="find_unchanged_atom_pairs", lean="findUnchangedAtomPairs", partial=True,
+         params=[("max_delta", NUM)], locals={"match_pairs": LIST(TUP(NAT, NAT))},
+         objattrs={"orig_structure": {"positions": LIST(VEC3), "elements": LIST(STR)},
+                   "final_structure": {"positions": LIST(VEC3), "elements": LIST(STR)}}, ret=LIST(TUP(NAT, NAT)),
+         doc="; the structures are given by their position rows and their per-atom element lists (`Atoms.elements`); `none` = IndexError"),
+    dict(file="mofun/helpers.py", py="atoms_of_type", lean="atomsOfType", params=[("types", LIST(STR)), ("element", STR)], ret=LIST(NAT),
+         doc=": the positions of `element` in `types`, ascending"),
+    dict(_REPL, lean="replaceEmptyBranch", fragment=[("if", "len(replace_pattern)"), "test"], params=[], inputs={},
+         objattrs={"replace_pattern": {"__len__": NAT}}, ret=BOOL,
+         doc=" (FRAGMENT: is the replacement empty, i.e. is this a pure deletion)"),
+    dict(_REPL, lean="replaceEmptyDelete", fragment=[("if", "len(replace_pattern)"), "body", ("stmt", "to_delete then to_delete")], params=[],
+         inputs={"to_delete": SET(NAT), "match_indices": LIST(LIST(NAT))}, ret=SET(NAT),
+         doc=" (FRAGMENT: the deletion set of the empty-replacement branch, `to_delete |= set([idx for match in match_indices for idx in match])`)"),
+]
 
 
 def render(repo=None):
